@@ -99,6 +99,15 @@ def shape_program(r):
                 ret = 'Bool' if op in ('=', '!=', '<', '<=', '>', '>=') else 'Int'
                 members.append(('method', f"    def {op}(self, other: Int) -> {ret} => {'True' if ret == 'Bool' else '1'}"))
                 methods[DUNDER[op]] = [('self', False, ''), ('other', False, '')]
+        # methods defined under their dunder NAME (the only way to define >=, <=, len, ...): the name must come out unchanged
+        for dn in r.sample(['__ge__', '__le__', '__gt__', '__lt__', '__ne__', '__len__', '__contains__', '__neg__', '__floordiv__', '__truediv__', '__radd__', '__call__'], r.choice([0, 0, 1, 2])):
+            if dn in methods:
+                continue
+            if dn in ('__len__', '__neg__'):
+                members.append(('method', f'    def {dn}(self) -> Int => 1')); methods[dn] = [('self', False, '')]
+            else:
+                ret = 'Bool' if dn in ('__ge__', '__le__', '__gt__', '__lt__', '__ne__', '__contains__') else 'Int'
+                members.append(('method', f"    def {dn}(self, other: Int) -> {ret} => {'True' if ret == 'Bool' else '1'}")); methods[dn] = [('self', False, ''), ('other', False, '')]
         if 'Shape' in parents:
             members.append(('method', '    def area(self) -> Int => 4'))
             methods['area'] = [('self', False, '')]
